@@ -3,7 +3,7 @@ import hashlib
 
 import numpy as np
 
-from .. import env, core, gen, conv, spec, mksegy, segycases
+from .. import env, core, gen, conv, spec, mksegy, segycases, writercorr
 from seismic_zfp.read import SgzReader  # noqa: E402
 from seismic_zfp.conversion import SgzConverter  # noqa: E402
 
@@ -27,6 +27,21 @@ def stored_hash(path):
 def run(ctx):
     rng = gen.rng_for(ctx.seed, 'c20')
     n_cases = 60 if ctx.quick else 1200
+    # K: the byte stream fed to the hash (hashlib wrapper) vs Lean Writer.hashFeed / hashFeed2d, every route
+    model = core.Model()
+    try:
+        for k in range(40 if ctx.quick else 800):
+            route = ['numpy', 'segy', 'segy-ri', '2d'][k % 4]
+            if route == '2d':
+                n, bs, q = gen.geometry_2d(rng, max_voxels=30_000)
+                n = (1, max(n[1], 2), max(n[2], 2))
+            else:
+                n, bs, q = gen.geometry_3d(rng, klass=['default', 'b0is4', 'general', 'zslice', None][k % 5], max_voxels=30_000)
+                n = tuple(max(v, 2) for v in n)
+            ctx.case(('hashfeed', route, n, bs, q))
+            writercorr.check(ctx, model, n, bs, q, 'segy' if route == '2d' else route)
+    finally:
+        model.close()
     for k in range(n_cases):
         kind = ['numpy', 'segy', 'segy-ri', '2d', 'numpy', 'segy'][k % 6]
         if kind == '2d':
